@@ -444,6 +444,16 @@ func (b *resourceHandler) applyDelete(r res.Resource) (interface{}, error) {
 			return err
 		}
 
+		// Get the value to the correct type before deleting, so that a failure
+		// to unmarshal leaves the storage unchanged. With indices, the value is
+		// also needed for the Index.Key callback to generate the key to delete.
+		v := reflect.New(b.t)
+		err = json.Unmarshal(dta, v.Interface())
+		if err != nil {
+			return err
+		}
+		value = v.Elem().Interface()
+
 		err = txn.Delete(rname)
 		if err != nil {
 			return err
@@ -451,15 +461,6 @@ func (b *resourceHandler) applyDelete(r res.Resource) (interface{}, error) {
 
 		// Delete index values
 		if b.idxs != nil {
-			// With indices, we need to get the value to the correct type first
-			// so that our Index.Key callback can generate the key to delete
-			v := reflect.New(b.t)
-			err = json.Unmarshal(dta, v.Interface())
-			if err != nil {
-				return err
-			}
-			value = v.Elem().Interface()
-
 			// Delete index entry
 			for _, idx := range b.idxs.Indexes {
 				iv := idx.Key(value)
@@ -484,15 +485,10 @@ func (b *resourceHandler) applyDelete(r res.Resource) (interface{}, error) {
 			b.idxs.triggerListeners(idxname, r, value, nil)
 		}
 		b.idxs.triggerListeners("", r, value, nil)
-	} else {
-		// If not, we need to unmarshal the data
-		// and get a proper value
-		v := reflect.New(b.t)
-		err = json.Unmarshal(dta, v.Interface())
-		if err != nil {
-			return nil, err
-		}
-		value = v.Elem().Interface()
+	} else if dta == nil {
+		// The resource did not exist. As before, this is reported as the
+		// error of unmarshaling no data.
+		return nil, json.Unmarshal(dta, reflect.New(b.t).Interface())
 	}
 
 	return value, nil
